@@ -290,7 +290,7 @@ impl<'a> G<'a> {
             1 => { self.feat("sysevalf"); self.pk("%sysevalf"); self.ows(); self.del_mark("(", "LPAREN", "MissingExpectedLParen", false); self.ows(); self.eval_expr(true, false); if self.u.coin(1, 3) { self.gap_after_expr(); self.mark(",", MK::Delim("COMMA", false)); self.ows(); self.p("boolean"); } self.mark(")", MK::Delim("RPAREN", false)); }
             2 => { self.feat("scan"); let nm = self.pick(&["%scan", "%qscan", "%SCAN", "%kscan", "%qkscan", "%QKScan"]); self.p(nm); self.ows(); self.del_mark("(", "LPAREN", "MissingExpectedLParen", false); self.ows(); self.bvalue(); let close_anchor_needed = self.out.len(); let _ = close_anchor_needed; let di = self.dels.len(); self.del_mark(",", "COMMA", "MissingExpectedComma", false); self.ows(); self.eval_expr(false, true); if self.u.coin(1, 2) { self.gap_after_expr(); self.mark(",", MK::Delim("COMMA", false)); self.ows(); if self.u.coin(1, 2) { self.p("|"); self.mark("(", MK::Masked); self.p(" "); self.mark(")", MK::Masked); } else { self.bvalue(); } if self.u.coin(1, 2) { self.feat("scan-modifiers"); self.mark(",", MK::Delim("COMMA", false)); self.ows(); if self.u.coin(1, 2) { self.p("m"); } else { self.bvalue(); } } self.dels.remove(di); } else { let a = self.anchor(); self.dels[di].at_mark = Some(a); } self.mark(")", MK::Delim("RPAREN", false)); }
             3 => { self.feat("substr"); let nm = self.pick(&["%substr", "%qsubstr", "%ksubstr", "%qksubstr", "%SUBSTR", "%QKsubstr"]); self.p(nm); self.ows(); self.del_mark("(", "LPAREN", "MissingExpectedLParen", false); self.ows(); self.bvalue(); let di = self.dels.len(); self.del_mark(",", "COMMA", "MissingExpectedComma", false); self.ows(); self.eval_expr(false, true); if self.u.coin(1, 2) { self.gap_after_expr(); self.mark(",", MK::Delim("COMMA", false)); self.ows(); self.eval_expr(false, true); self.dels.remove(di); } else { let a = self.anchor(); self.dels[di].at_mark = Some(a); } self.mark(")", MK::Delim("RPAREN", false)); }
-            4 => { self.feat("one-arg-masking"); let nm = self.pick(&["%upcase", "%length", "%index", "%quote", "%bquote", "%nrbquote", "%superq", "%unquote", "%symexist", "%sysget", "%qupcase", "%qlowcase", "%nrquote", "%kupcase", "%klength", "%kindex", "%qkupcase", "%qklowcase", "%sysmexecname", "%sysprod", "%symglobl", "%symlocal", "%sysmacexec", "%sysmacexist", "%UPCASE", "%Length"]); self.p(nm); self.ows(); self.del_mark("(", "LPAREN", "MissingExpectedLParen", false); self.ows(); self.simple_value(); if self.u.coin(1, 2) { self.mark(",", MK::Masked); self.p("t"); } self.mark(")", MK::Delim("RPAREN", false)); }
+            4 => { self.feat("one-arg-masking"); let nm = self.pick(&["%upcase", "%length", "%index", "%quote", "%bquote", "%nrbquote", "%superq", "%unquote", "%symexist", "%sysget", "%qupcase", "%qlowcase", "%nrquote", "%kupcase", "%klength", "%kindex", "%qkupcase", "%qklowcase", "%sysmexecname", "%sysprod", "%symglobl", "%symlocal", "%sysmacexec", "%sysmacexist", "%UPCASE", "%Length"]); self.p(nm); self.ows(); self.del_mark("(", "LPAREN", "MissingExpectedLParen", false); self.ows(); self.bvalue(); if self.u.coin(1, 2) { self.mark(",", MK::Masked); self.p("t"); if self.u.coin(1, 3) { self.d_inc(); self.builtin_call(2); self.depth -= 1; } } self.mark(")", MK::Delim("RPAREN", false)); }
             5 => { self.feat("multi-arg-builtin"); let nm = self.pick(&["%cmpres", "%left", "%trim", "%lowcase", "%qtrim", "%datatyp", "%qcmpres", "%kcmpres", "%qkcmpres", "%qleft", "%kleft", "%qkleft", "%ktrim", "%qktrim", "%klowcase", "%Trim"]); self.p(nm); self.ows(); self.del_mark("(", "LPAREN", "MissingExpectedLParen", false); self.ows(); self.bvalue(); let extra = self.u.below(3); for _ in 0..extra { self.mark(",", MK::Delim("COMMA", false)); self.ows(); self.bvalue(); } self.mark(")", MK::Delim("RPAREN", false)); }
             6 => { self.feat("sysfunc"); let nm = self.pick(&["%sysfunc", "%qsysfunc", "%SysFunc"]); self.p(nm); self.ows(); self.del_mark("(", "LPAREN", "MissingExpectedLParen", false); self.ows(); let f = self.pick(&["cats", "putn", "max", "today", "substr"]); self.p(f); self.ows(); self.del_mark("(", "LPAREN", "MissingExpectedLParen", false); self.ows(); let n = self.u.below(3); for i in 0..n { if i > 0 { self.gap_after_expr(); self.mark(",", MK::Delim("COMMA", false)); self.ows(); } self.eval_expr(true, true); } self.mark(")", MK::Delim("RPAREN", false)); self.ows(); if self.u.coin(1, 3) { self.mark(",", MK::Delim("COMMA", false)); self.ows(); self.p("best12."); } self.mark(")", MK::Delim("RPAREN", false)); }
             7 | 8 => { self.str_call(); }
@@ -464,6 +464,26 @@ impl<'a> G<'a> {
     fn ows_no_paren(&mut self) { if self.u.coin(1, 3) { self.p(" "); } }
     fn local_global(&mut self) { self.feat("local-global"); let k = self.pick(&["%local", "%global", "%LOCAL"]); self.p(k); self.rws(); if self.u.coin(1, 4) { self.p("/ readonly "); self.name_expr(); self.ows(); self.p("="); self.ows(); self.text_expr(); } else { let n = 1 + self.u.below(3); for i in 0..n { if i > 0 { self.p(" "); } self.name_expr(); } } self.mark(";", MK::Delim("SEMI", false)); }
     fn goto_label(&mut self) { self.feat("goto-label"); if self.u.coin(1, 2) { self.pk("%goto"); self.rws(); if self.u.coin(1, 4) { self.mvar(false); } else { let l = self.pick(&["done", "lbl1", "é_l"]); self.p(l); } self.ows(); self.p(";"); } else { if !self.out.is_empty() && !self.out.ends_with([';', '\n', ' ']) { self.p(" "); } let l = self.pick(&["%done", "%lbl1", "%next_step"]); self.p(l); self.ows(); self.p(":"); self.plain_ws(); self.simple_macro_stmt(); } }
+    // free-form option text of the statement-option statements (lexed until the ';'): words, key=value, quoted strings,
+    // macro variables, calls, slashes, numbers, comments
+    fn opts_text(&mut self) {
+        self.feat("statement-options-text");
+        let n = 1 + self.u.below(4);
+        for i in 0..n {
+            if i > 0 { self.p(" "); }
+            match self.u.below(10) {
+                0 | 1 => { let w = self.pick(WORDS); self.p(w); }
+                2 => { let k = self.pick(&["color", "rows", "des", "outfile", "lib"]); self.p(k); self.p("="); if self.u.coin(1, 2) { let w = self.pick(WORDS); self.p(w); } else { self.mvar(true); } }
+                3 => self.p("'q;x'"),
+                4 => { self.p("\"d "); self.mvar(true); self.p("\""); }
+                5 => self.mvar(true),
+                6 => { self.d_inc(); self.user_call(0); self.depth -= 1; if !self.out.ends_with(')') { self.p(" w"); } }
+                7 => { let x = self.pick(&["#1", "@2", "5", "+3", "a/b"]); self.p(x); }
+                8 => self.p("/*c;*/"),
+                _ => { self.d_inc(); self.builtin_call(0); self.depth -= 1; }
+            }
+        }
+    }
     fn misc_stat(&mut self) {
         self.feat("misc-stat");
         match self.u.below(8) {
@@ -473,18 +493,18 @@ impl<'a> G<'a> {
             3 => { self.pk("%syscall"); self.rws(); let f = self.pick(&["ranuni", "streaminit", "symput", "set"]); self.p(f); self.ows(); self.del_mark("(", "LPAREN", "MissingExpectedLParen", false); self.ows(); let n = 1 + self.u.below(3); for i in 0..n { if i > 0 { self.mark(",", MK::Delim("COMMA", false)); self.ows(); } match self.u.below(6) { 0 | 1 => self.mvar(true), 2 => { let w = self.pick(&["seed", "x", "abc"]); self.p(w); } 3 => { let w = self.pick(&["1", "42"]); self.mark(w, MK::IntOperand); } 4 => { self.feat("comma-in-expression-parens"); let f = self.pick(&["max", "", "min"]); self.p(f); self.mark("(", MK::Op("LPAREN")); let w = self.pick(&["1", "&v", "a"]); self.p(w); self.mark(",", MK::Masked); let w = self.pick(&["2", " &v", "b"]); self.p(w); self.mark(")", MK::Op("RPAREN")); } _ => self.p("'a,b'") } } self.mark(")", MK::Delim("RPAREN", false)); self.ows(); self.del_mark(";", "SEMI", "MissingExpectedSemiOrEOF", false); }
             4 => { self.pk("%include"); self.rws(); self.p("'file.sas'"); self.ows(); self.p(";"); }
             5 => { match self.u.below(10) {
-                    0 => { self.pk("%abort"); if self.u.coin(1, 2) { let o = self.pick(&[" cancel", " abend 4", " return"]); self.p(o); } self.ows(); self.p(";"); }
+                    0 => { self.pk("%abort"); if self.u.coin(1, 2) { let o = self.pick(&[" cancel", " abend 4", " return"]); self.p(o); } else if self.u.coin(1, 2) { self.p(" "); self.opts_text(); } self.ows(); self.p(";"); }
                     1 => { self.pk("%syslput"); self.rws(); self.name_expr(); self.p("="); self.mvar(true); self.p(";"); }
                     2 => { let k = self.pick(&["%include", "%inc", "%INCLUDE"]); self.p(k); self.rws(); let f = self.pick(&["'f.sas'", "\"f&v..sas\"", "fref", "fref(member)"]); self.p(f); if self.u.coin(1, 3) { self.p(" / source2"); } self.ows(); self.p(";"); }
-                    3 => { self.p("%window w color=red #1 @2 \"t\" "); self.mvar(true); self.p(";"); }
-                    4 => { self.p("%display w"); self.ows(); self.p(";"); }
-                    5 => { self.pk("%input"); self.rws(); self.name_expr(); self.p(" b"); self.ows(); self.p(";"); }
+                    3 => { if self.u.coin(1, 2) { self.p("%window w color=red #1 @2 \"t\" "); self.mvar(true); } else { self.pk("%window"); self.rws(); self.p("w "); self.opts_text(); } self.p(";"); }
+                    4 => { self.pk("%display"); self.rws(); self.p("w"); if self.u.coin(1, 2) { self.p(" "); self.opts_text(); } self.ows(); self.p(";"); }
+                    5 => { self.pk("%input"); self.rws(); if self.u.coin(1, 2) { self.name_expr(); self.p(" b"); } else { self.opts_text(); } self.ows(); self.p(";"); }
                     6 => { self.pk("%sysmacdelete"); self.rws(); let m = self.pick(MNAMES); self.p(m); self.ows(); self.p("/"); if self.u.coin(1, 2) { self.p(" nowarn"); } self.ows(); self.p(";"); /* the lexer documents the '/' of %sysmacdelete as mandatory (expect_macro_name_then_opts) */ }
                     7 => { let k = self.pick(&["%sysmstoreclear", "%list", "%run"]); self.p(k); self.ows(); self.p(";"); }
                     8 => { self.pk("%sysexec"); self.rws(); self.p("echo "); if self.u.coin(1, 2) { self.str_call(); } self.p(" done"); self.p(";"); }
                     _ => { self.pk("%abort"); self.ows(); self.p(";"); }
                 } }
-            6 => { self.pk("%copy"); self.rws(); let nm = self.pick(MNAMES); self.p(nm); self.ows(); self.del_mark("/", "FSLASH", "MissingExpectedFSlash", false); self.ows(); if self.u.coin(2, 3) { let o = self.pick(&["source", "SOURCE", "source outfile='f.sas'", "lib=work source"]); self.p(o); self.ows(); } self.p(";"); }
+            6 => { self.pk("%copy"); self.rws(); let nm = self.pick(MNAMES); self.p(nm); self.ows(); self.del_mark("/", "FSLASH", "MissingExpectedFSlash", false); self.ows(); if self.u.coin(1, 3) { self.opts_text(); self.ows(); } else if self.u.coin(1, 2) { let o = self.pick(&["source", "SOURCE", "source outfile='f.sas'", "lib=work source"]); self.p(o); self.ows(); } self.p(";"); }
             _ => { self.pk("%sysrput"); self.rws(); self.name_expr(); self.p("="); self.mvar(true); self.p(";"); }
         }
     }
